@@ -51,6 +51,34 @@ def run(ctx):
     escape(ctx, model, lm)
     floats(ctx, model, lm)
     delim(ctx, model, lm)
+    pattern_body(ctx, model, lm)
+
+
+def pattern_body(ctx, model, lm):
+    """A pattern is rendered with its regex text as it is (no escaping), so the scanner state that collects a pattern
+    literal accepts EVERY character: a character refused there (line feed, say) is a pattern value whose rendering is
+    not a program.  (When the rendering starts to escape, this rule has to learn the escapes: refused, not guessed.)"""
+    rp = model.method(P, "ValuePattern", "__repr__")
+    rets = [n for n in ast.walk(rp.node) if isinstance(n, ast.Return) and n.value is not None]
+    raw = len(rets) == 1 and not any(isinstance(x, ast.Call) and not (isinstance(x.func, ast.Name) and x.func.id in
+                                                                      ("str", "format"))
+                                     for x in ast.walk(rets[0].value))
+    if not raw:
+        ctx.broken("ValuePattern.__repr__", "the rendering of a pattern is no longer the raw regex text between the "
+                   "delimiters: the scanner/renderer agreement for patterns has to be re-derived")
+    scan = model.method(P, "Lexer", "scan")
+    pstates = sorted({s_ for s_, leaves in lm.states.items() for l in leaves
+                      if any(e.type == "'pattern'" or e.type == "pattern" or "pattern" in str(e.type) for e in l.emits)})
+    if not pstates:
+        ctx.broken("Lexer.scan", "no scanner state emits a pattern token")
+    for s_ in pstates:
+        bad = [l for l in lm.states[s_] if l.raises]
+        ctx.check("C08.pattern", scan, None, not bad,
+                  f"scanner state {s_} (inside a pattern literal) refuses some character ("
+                  f"{bad[0].cond_text() if bad else ''}: {bad[0].raises if bad else ''}) while ValuePattern.__repr__ "
+                  f"writes the regex text unescaped: a pattern value containing that character renders to text that "
+                  f"is not a program", expr=f"pattern state {s_} total",
+                  site=f"Lexer.scan: pattern state {s_} accepts every character (rendering is raw)")
 
 
 def order_exact(ctx, model):
